@@ -111,6 +111,20 @@ func c13Worker(scratch string) func(string) string {
 				return "impl=ERROR:mkdtemp"
 			}
 			defer os.RemoveAll(d)
+			// the directory is not fresh: an earlier run has left the files of ANOTHER document of the same length there (what is
+			// embedded must be the input of this run, whatever the directory held)
+			if len(s) > 0 {
+				prev := []byte(s)
+				for k := range prev {
+					switch {
+					case prev[k] >= 'a' && prev[k] < 'z', prev[k] >= '0' && prev[k] < '9':
+						prev[k]++
+					case prev[k] == 'z':
+						prev[k] = 'a'
+					}
+				}
+				gen.Generate([]byte(c13Doc), d, gen.Options{API: true, DoNotEdit: true, SpecRaw: prev, SpecName: "openapi.yaml"})
+			}
 			gerr, panicked, _ := gen.Generate([]byte(c13Doc), d, gen.Options{API: true, DoNotEdit: true, SpecRaw: []byte(s), SpecName: "openapi.yaml"})
 			if panicked {
 				return "impl=PANIC"
